@@ -240,7 +240,12 @@ class GymStateWrapper(gym.Wrapper):
             ValueError('GymEnvironment does not have a state space')
 
         super().__init__(env)
-        self.observation_space = env.state_space
+
+    @property
+    def observation_space(self):
+        # always the current state space of the wrapped environment, which
+        # changes with `set_state_representation`
+        return self.env.state_space
 
     @property
     def observation(self) -> Dict[str, np.ndarray]:
